@@ -1,5 +1,6 @@
 mod c07;
 mod c11;
+mod c15x;
 mod c17x;
 mod cxxgen;
 mod drive;
@@ -33,8 +34,9 @@ fn check_source(prop: &str, text: &str, tier: Tier) -> i32 {
         "C13" => pygen::check_on(tier, Some(vec![st])),
         "C14" => cxxgen::check_on(tier, Some(vec![st])),
         "C19" => javagen::check_on(tier, Some(vec![st])),
+        p @ ("C01" | "C02" | "C03" | "C04" | "C05" | "C06" | "C15" | "C17" | "C18") => rustgen::check_on(p, tier, Some(vec![st])),
         _ => {
-            eprintln!("single-source mode is available for C13, C14 and C19 (the other engines replay through their explored state)");
+            eprintln!("single-source mode is available for the compiled engines (C01-C06, C13-C15, C17-C19); the front-end checks and C07 / C11 replay by re-running the deterministic check");
             2
         }
     }
@@ -108,7 +110,7 @@ fn main() {
             let j: serde_json::Value = serde_json::from_str(&std::fs::read_to_string(&args[2]).expect("read replay file")).expect("replay file is not JSON");
             let prop = j["property"].as_str().unwrap_or("").to_string();
             let sig = j["signature"].as_str().unwrap_or("").to_string();
-            let src = j["detail"]["state"]["source"].as_str().or(j["detail"]["source"].as_str()).unwrap_or("").to_string();
+            let src = j["detail"]["state"]["source"].as_str().or(j["detail"]["source"].as_str()).or(j["detail"]["state"]["state"]["source"].as_str()).unwrap_or("").to_string();
             if src.is_empty() {
                 eprintln!("replay: the file records no source text");
                 std::process::exit(2);
